@@ -44,7 +44,7 @@ func (f *Frame) call(instr ssa.Instruction, c *ssa.CallCommon, result ssa.Value)
 			} else {
 				// unknown function value: havoc everything
 				f.safe("nil", not(eq(f.materialize(fv), "0")), "call of possibly nil function value "+c.Value.Name(), instr.Pos())
-				vc.he.havoc(f.cur, ModSet{Top: true})
+				f.havocKeeping(f.cur, ModSet{Top: true}, "?dynamic")
 				res = vc.freshResult(f, c.Signature().Results(), "dyncall")
 			}
 		}
@@ -106,7 +106,11 @@ func (f *Frame) invoke(c *ssa.CallCommon, pos token.Pos) (Val, bool) {
 	for _, im := range impls {
 		m.union(vc.eng.modOf(im))
 	}
-	vc.he.havoc(f.cur, m)
+	ipkg := "?iface"
+	if c.Method.Pkg() != nil {
+		ipkg = c.Method.Pkg().Path()
+	}
+	f.havocKeeping(f.cur, m, ipkg)
 	return vc.freshResult(f, c.Signature().Results(), c.Method.Name()), false
 }
 
@@ -361,7 +365,7 @@ func (f *Frame) callFunction(fn *ssa.Function, args []Val, bind []Val, c *ssa.Ca
 	}
 	// havoc
 	m := eng.modOf(fn)
-	vc.he.havoc(f.cur, m)
+	f.havocKeeping(f.cur, m, pkgOfFn(fn))
 	return vc.freshResult(f, sig.Results(), fn.Name()), false
 }
 
@@ -458,7 +462,9 @@ func (e *Engine) derefsUnconditionally(fn *ssa.Function, p *ssa.Parameter) bool 
 }
 
 func (f *Frame) applyContractFn(ct *Contract, fn *ssa.Function, names []string, args []Val, m ModSet, pos token.Pos) Val {
-	return f.applyContract(ct, names, args, fn.Signature.Results(), m, fn.Name(), pos, fn == f.vc.top)
+	res := f.applyContract(ct, names, args, fn.Signature.Results(), m, fn.Name(), pos, fn == f.vc.top)
+	f.noteTokenRead(fn, res, pos)
+	return res
 }
 
 func (f *Frame) applyContract(ct *Contract, names []string, args []Val, results *types.Tuple, m ModSet, short string, pos token.Pos, recursive bool) Val {
@@ -481,7 +487,7 @@ func (f *Frame) applyContract(ct *Contract, names []string, args []Val, results 
 		f.oblige("dec:rec", "false", "recursive call without decreases clause", pos, nil, true)
 	}
 	old := f.cur.clone()
-	vc.he.havoc(f.cur, m)
+	f.havocKeeping(f.cur, m, ct.Pkg)
 	res := vc.freshResult(f, results, short)
 	post := &SpecEnv{f: f, vars: env.vars, st: f.cur, old: old, pkg: ct.Pkg}
 	if results.Len() == 1 {
